@@ -18,6 +18,7 @@ import Pdpy11.Driver.Layout
 import Pdpy11.Driver.Shunt
 import Pdpy11.Driver.Poly
 import Pdpy11.Driver.Thunk
+import Pdpy11.Driver.Await
 import Pdpy11.Driver.Path
 namespace Pdpy11.Driver
 
@@ -56,6 +57,7 @@ def handle (line : String) : String :=
     | "shuntp" => handleShuntP args
     | "poly" => handlePoly args
     | "thunk" => handleThunk args
+    | "await" => handleAwait args
     | "respath" => handleResPath args
     | "tapename" => handleTapeName args
     | "ping" => "pong"
